@@ -182,11 +182,23 @@ func c25EntryKinds() []c25EntryKind {
 type c25Msg struct {
 	Desc string
 	v    any
+	home int // entry kind registered for exactly this message's type (-1: none)
 }
 
 func c25Messages(r *verifRNG) []c25Msg {
 	var out []c25Msg
-	add := func(d string, v any) { out = append(out, c25Msg{d, v}) }
+	home := map[string]int{"*remoteclient.c25S1": 1, "*remoteclient.c25S2": 2, "*commands.Ack": 5, "*remoteclient.c25Toy": 6,
+		"*remoteclient.c25Toy2": 7, "*testpb.Reply": 8, "*remoteclient.c25Coll": 9}
+	add := func(d string, v any) {
+		h, ok := home[fmt.Sprintf("%T", v)]
+		if !ok {
+			h = -1
+		}
+		if _, isCmd := v.(interface{ c25IsCommand() }); isCmd {
+			h = 5
+		}
+		out = append(out, c25Msg{d, v, h})
+	}
 	str := func() string {
 		return []string{"", "x", "héllo wörld", "a\x00b", "{\"k\":1}", "AB", "12345678901234567890123456789012345678901234567890"}[r.intn(7)]
 	}
@@ -228,11 +240,24 @@ func c25Messages(r *verifRNG) []c25Msg {
 	if a, err := commands.NewAck("sess-1", "nonce", int64(r.intn(1000))); err == nil {
 		add("*commands.Ack", a)
 	}
-	if q, err := commands.NewRequest("sess-1", "nonce", 3, 9, r.intn(2) == 0); err == nil {
-		add("*commands.Request", q)
+	for _, via := range []bool{false, true} {
+		if q, err := commands.NewRequest("sess-1", "nonce", int64(r.intn(9)), 9+int64(r.intn(9)), via); err == nil {
+			add(fmt.Sprintf("*commands.Request via=%v", via), q)
+		}
+	}
+	if q, err := commands.NewRegisterConsumer("nonce-" + str()); err == nil {
+		add("*commands.RegisterConsumer", q)
+	}
+	if q, err := commands.NewRegistrationAck("sess-2", 1+int64(r.intn(1000)), "nonce"); err == nil {
+		add("*commands.RegistrationAck", q)
 	}
 	if s, err := commands.NewSequencedMessage("sess-1", "m-1", 7, []byte{1, 2, 3}); err == nil {
 		add("*commands.SequencedMessage", s)
+	}
+	for _, fl := range [][2]bool{{true, false}, {false, true}, {false, false}} {
+		if s, err := commands.NewChunkedSequencedMessage("sess-1", "m-2", int64(r.intn(50)), []byte{9, 8, byte(r.next())}, fl[0], fl[1]); err == nil {
+			add(fmt.Sprintf("*commands.SequencedMessage chunk first=%v last=%v", fl[0], fl[1]), s)
+		}
 	}
 	add("*Toy", &c25Toy{S: str()})
 	add("*Toy2", &c25Toy2{S: str()})
@@ -272,7 +297,7 @@ func c25Short(v any) string {
 func c25ValueBecamePointer(sent, got any) bool {
 	ts := reflect.TypeOf(sent)
 	vg := reflect.ValueOf(got)
-	if ts == nil || ts.Kind() == reflect.Pointer || !vg.IsValid() || vg.Kind() != reflect.Pointer || vg.IsNil() {
+	if ts == nil || ts.Kind() != reflect.Struct || !vg.IsValid() || vg.Kind() != reflect.Pointer || vg.IsNil() {
 		return false
 	}
 	return vg.Elem().Type() == ts && reflect.DeepEqual(vg.Elem().Interface(), sent)
@@ -286,6 +311,7 @@ type c25Case struct {
 	Msg      string // description
 	Matches  []bool // per entry: type of the message matches the entry
 	IsProto  []bool
+	IsIface  []bool
 	Ser      []int   // per entry: frame id its Serialize produced, -1 = error
 	NFrames  int     // number of distinct frames
 	Deser    [][]int // per frame, per entry: message id its Deserialize produced, -1 = error (id 0 = the message itself)
@@ -352,7 +378,17 @@ func TestVerifC25(t *testing.T) {
 		for mi, m := range msgs {
 			// quick tier: each configuration sees a rotating third of the messages
 			if !thorough && (mi+ci)%3 != 0 {
-				continue
+				// ... plus every message whose own entry kind is part of this configuration, and the
+				// delivery commands whenever the delivery serializer is (they reach it through dispatch.Serialize)
+				own := false
+				for _, k := range cfg {
+					if k == m.home || (k == 5 && len(m.Desc) > 10 && m.Desc[:10] == "*commands.") {
+						own = true
+					}
+				}
+				if !own {
+					continue
+				}
 			}
 			c := c25Case{I: idx, Entries: cfg, Msg: m.Desc, RResolve: -1, RDSer: -1}
 			idx++
@@ -392,6 +428,7 @@ func TestVerifC25(t *testing.T) {
 					}
 					_, isP := e.serializer.(*remote.ProtoSerializer)
 					c.IsProto = append(c.IsProto, isP)
+					c.IsIface = append(c.IsIface, e.iface.Kind() == reflect.Interface)
 					b, err := e.serializer.Serialize(m.v)
 					if err != nil {
 						c.Ser = append(c.Ser, -1)
@@ -551,7 +588,7 @@ func TestVerifC25(t *testing.T) {
 						if c.RResolve != j {
 							sig := "chosen-by-type:other"
 							if c.RResolve >= 0 && c.RResolve < j && entries[c.RResolve].iface.Kind() == reflect.Interface {
-								sig = "resolveSerializer:earlier-interface-entry-shadows-exact-type"
+								sig = "resolveSerializer:earlier-interface-entry-shadows-exact-type" // the defect repaired in /repo (fix: resolveSerializer prefers the exact concrete type)
 							}
 							fail(sig, "chosen-by-type: %s has an entry for its exact type (#%d %s) but resolveSerializer chose #%d (%s)", m.Desc, j, kinds[cfg[j]].Name, c.RResolve, kindName(c.RResolve))
 						}
